@@ -62,7 +62,7 @@ def shapes(tier, seed):
                         bins.append((("join",) + lo_labs + (r,), ("join", lnode, ("leaf", r), None), lp))
                         bins.append((("join'",) + lo_labs + (r,), ("join", ("leaf", r), lnode, None), lp))
         for labs, node, p in bins:
-            add(eng, node, p, labs)
+            add(eng, node, p, labs, nn=3 if (labs[0].startswith("join") and len(labs) == 2) else n)
             try:
                 for labs2, node2, p2 in templates.unary_sequences(node, LEAFCOLS, 1, "std", labels=ops1 + ("sort a",)):
                     p3 = templates.P()
